@@ -172,16 +172,31 @@ def rule_binner(ctx):
     if prim is None or sec is None:
         return
     # rows_in_bins computed from the reference row on every path
-    rdefs = [st for st in flow.stmts if isinstance(st, ast.Assign) and isinstance(st.targets[0], ast.Name) and calls_in(st.value, ("_rows_for_secondaries", "_rows_for_secondaries_numba"))]
+    ROWFN = ("_rows_for_secondaries", "_rows_for_secondaries_numba")
+
+    def row_callee(call, at_):
+        """names of the row-assignment functions a call may invoke (through a local chosen on several paths)"""
+        fn_ = call.func
+        if isinstance(fn_, ast.Name) and fn_.id not in ROWFN:
+            vals_ = [flow._def_value(d_, fn_.id) for d_ in flow.defs(fn_.id, at_) if d_ != "param"]
+            if vals_ and all(v_ is not None and (dotted(v_) or "").split(".")[-1] in ROWFN for v_ in vals_):
+                return True
+            return False
+        return (dotted(fn_) or "").split(".")[-1] in ROWFN
+    rdefs = [st for st in flow.stmts if isinstance(st, ast.Assign) and isinstance(st.targets[0], ast.Name) and isinstance(st.value, ast.Call) and row_callee(st.value, st)]
+    if not rdefs:
+        raise AnalysisError("collapse: no assignment from _rows_for_secondaries(...) found")
     rname = rdefs[0].targets[0].id if rdefs else None
     # every definition of that name counts (a vectorised "equivalent" is only equivalent for sorted reference indices)
     rdefs = [st for st in flow.stmts if isinstance(st, ast.Assign) and isinstance(st.targets[0], ast.Name) and st.targets[0].id == rname]
-    bad = [norm(st)[:90] for st in rdefs if not (isinstance(st.value, ast.Call) and (dotted(st.value.func) or "").split(".")[-1] in ("_rows_for_secondaries", "_rows_for_secondaries_numba")
+    bad = [norm(st)[:90] for st in rdefs if not (isinstance(st.value, ast.Call) and row_callee(st.value, st)
                                                 and [norm(a) for a in st.value.args] == [prim])]
     ctx.ob("collapse.rows_in_bins", bool(rdefs) and not bad, "%d definitions; not from the reference row: %s" % (len(rdefs), bad or "none"),
            "rows_in_bins = _rows_for_secondaries(<reference row>) on every path (python and numba variant)", node=rdefs[0] if rdefs else f.node, func=f)
     # binner dims
     bd = A.get("binner_dims", [None])[0]
+    if bd is None:
+        raise AnalysisError("collapse: the shape of the bin matrix (binner_dims) was not found")
     okd = False
     if bd is not None and isinstance(bd.value, ast.List) and len(bd.value.elts) == 2:
         d0, d1 = [norm(flow.resolve(e, at=bd, depth=2, stop=(rname, prim))).replace(" ", "") for e in bd.value.elts]
@@ -198,6 +213,8 @@ def rule_binner(ctx):
                 scatter = st
     okf = fill is not None and norm(fill.value) in ("np.nan", "numpy.nan", "float('nan')")
     bdef = A.get("binned_data", [None])[0]
+    if scatter is None or (fill is None and bdef is None):
+        raise AnalysisError("collapse: the bin matrix `binned_data` (allocation / NaN fill / scatter) was not found")
     if bdef is not None and "np.full" in norm(bdef.value) and "nan" in norm(bdef.value):
         okf = True
     ordered = True
@@ -280,6 +297,10 @@ def rule_expand(ctx):
     for k in (0, 1):
         key = "groups[%d] + '/collocation'" % k
         got = sels.get(key)
+        if got is None:
+            if not sels:
+                raise AnalysisError("expand: no isel({dimension: indices}) selection understood")
+            raise AnalysisError("expand: selection along %s not found among %s" % (key, sorted(map(str, sels))))
         ok = got is not None and got[0] == "pairs[%d]" % k and not got[1]
         ctx.ob("expand.isel[%d]" % k, ok, "isel(%s: %s)%s" % (key, got[0] if got else None, (" under %s" % got[1]) if got and got[1] else ""),
                "dataset.isel({groups[%d] + '/collocation': pairs[%d]}) on every path (also when no point repeats: the pair row need not be sorted)" % (k, k),
@@ -370,9 +391,11 @@ def rule_concat(ctx):
             if isinstance(key, ast.Subscript) and isinstance(key.value, ast.Name):
                 d = flow.single_def_value(key.value.id, at_)
                 if d and isinstance(d[0], ast.Dict):
+                    want_k = norm(key.slice)
                     for kk, vv in zip(d[0].keys, d[0].values):
-                        if kk is not None and norm(kk) == norm(key.slice):
+                        if kk is not None and norm(kk) == want_k:
                             key = vv
+                            break
             return norm(flow.resolve(key, at=at_, depth=1, stop=("primary", "secondary"))).replace('"', "'")
         return None
     init = {}
